@@ -111,8 +111,10 @@ def run_units(ctx, n):
         vectors.append(["1"] * n0)          # an even split next to uneven ones
         vectors.append(["2"] + ["3"] * (n0 - 1))
         evs = []
+        repeat = rng.random() < 0.4          # hold-out layouts repeat a label: "control" 45, "treatment" 10, "control" 45
         for ws in vectors:
-            groups = ", ".join('"g%d" weighted %s' % (i, w) for i, w in enumerate(ws))
+            lab = (lambda i: i % 2) if repeat else (lambda i: i)
+            groups = ", ".join('"g%d" weighted %s' % (lab(i), w) for i, w in enumerate(ws))
             # the same weights on two branches with different labels: the branch must not matter
             text = ('def e { salt: "%s" splitters: uid if tier == 1 { return %s } else { return %s } }'
                     % (salt, groups, groups.replace('"g', '"h')))
@@ -125,7 +127,7 @@ def run_units(ctx, n):
                 exact, allowed = gen.spec_indices(ws, h)
                 for tier, prefix in ((1, "g"), (2, "h")):
                     out = common.outcome_of(lambda: ev(uid=uid, tier=tier))
-                    want = {prefix + str(i) for i in allowed}
+                    want = {prefix + str(lab(i)) for i in allowed}
                     if "g" not in out or out["g"].get("s") not in want:
                         ctx.violation(f"unit {uid!r} (position {h}) with weights {ws} on branch tier={tier}: got {json.dumps(out)}, "
                                       f"one position per unit requires {sorted(want)}",
